@@ -205,7 +205,12 @@ type Order struct {
 	reached map[*ssa.BasicBlock]bool
 }
 
-func NewOrder(fn *ssa.Function, ev Events) *Order {
+func NewOrder(fn *ssa.Function, ev Events) *Order { return NewOrderPruned(fn, ev, nil) }
+
+// NewOrderPruned is NewOrder on the CFG with the edges for which skip returns
+// true removed (e.g. the error edges of tested calls, to reason about the
+// paths on which those calls succeeded).
+func NewOrderPruned(fn *ssa.Function, ev Events, skip func(from, to *ssa.BasicBlock) bool) *Order {
 	o := &Order{fn: fn, ev: ev, mustIn: map[*ssa.BasicBlock]uint64{}, mayIn: map[*ssa.BasicBlock]uint64{}, reached: map[*ssa.BasicBlock]bool{}}
 	if len(fn.Blocks) == 0 {
 		return o
@@ -234,6 +239,9 @@ func NewOrder(fn *ssa.Function, ev Events) *Order {
 			any := false
 			for _, p := range b.Preds {
 				if !o.reached[p] {
+					continue
+				}
+				if skip != nil && skip(p, b) {
 					continue
 				}
 				any = true
@@ -578,6 +586,11 @@ func NewHeld(fn *ssa.Function) *Held {
 		}
 		return out
 	}
+	AllInstrs(fn, func(in ssa.Instruction) {
+		if p, _, rel, def := lockOp(in); rel && def {
+			h.Defers[p] = true
+		}
+	})
 	h.in[fn.Blocks[0]] = map[string]bool{}
 	changed := true
 	for changed {
